@@ -1040,8 +1040,11 @@ CORPUS = [
 
 
 def all_dialects():
+    """the Dialects enum UNION the importable dialect modules (the enum has no entry for every module, e.g. singlestore)"""
     from sqlglot.dialects.dialect import Dialects
-    return [d.value or None for d in Dialects]
+    import sqlglot.dialects as dmod
+    names = {d.value for d in Dialects if d.value} | set(getattr(dmod, "DIALECT_MODULE_NAMES", ()))
+    return [None] + sorted(names)
 
 
 # ------------------------------------------------------------------------------------------ correspondence
